@@ -259,7 +259,7 @@ func render(v ssa.Value, d int, onstack map[ssa.Value]bool) string {
 		seen := map[string]bool{}
 		for _, e := range x.Edges {
 			s := r(e)
-			if s == "↺" || seen[s] {
+			if seen[s] {
 				continue
 			}
 			seen[s] = true
